@@ -8,6 +8,7 @@ import (
 	"encoding/json"
 	"errors"
 	"fmt"
+	"net"
 	"net/http"
 	"net/url"
 	"os"
@@ -18,7 +19,9 @@ import (
 
 	logfmt "github.com/transparency-dev/formats/log"
 	"github.com/transparency-dev/witness/internal/config"
+	"github.com/transparency-dev/witness/internal/persistence/inmemory"
 	"github.com/transparency-dev/witness/internal/verifh/vlib"
+	"golang.org/x/mod/sumdb/note"
 	"gopkg.in/yaml.v3"
 )
 
@@ -209,6 +212,64 @@ func mutateConfig(doc []byte, kind string, entry int) ([]byte, bool) {
 	return out, true
 }
 
+// startMain runs the real Main on the given configuration (no polling, no bastion, no
+// distributor, loopback listener, in-memory storage) and requires it to come up.
+func startMain(doc []byte) error {
+	configMu.Lock()
+	defer configMu.Unlock()
+	saved := ConfigLogs
+	ConfigLogs = doc
+	defer func() { ConfigLogs = saved }()
+	ln, err := net.Listen("tcp", "127.0.0.1:0")
+	if err != nil {
+		return fmt.Errorf("harness: %v", err)
+	}
+	wk := vlib.NewKey("witness.example/w", "wit")
+	ctx, cancel := context.WithCancel(context.Background())
+	done := make(chan error, 1)
+	var panicked any
+	go func() {
+		defer func() {
+			if p := recover(); p != nil {
+				panicked = p
+				done <- fmt.Errorf("panic: %v", p)
+			}
+		}()
+		done <- Main(ctx, OperatorConfig{WitnessKeys: []note.Signer{wk.Signer(), wk.CosigSigner()}, WitnessVerifier: vlib.WitnessKey{K: wk, Kind: vlib.WKCosig}.Verifier()},
+			inmemory.NewPersistence(), ln, &http.Client{Transport: &refusingTransport{}})
+	}()
+	defer func() {
+		cancel()
+		select {
+		case <-done:
+		case <-time.After(20 * time.Second):
+		}
+	}()
+	deadline := time.Now().Add(20 * time.Second)
+	for {
+		select {
+		case err := <-done:
+			done <- err
+			if panicked != nil {
+				return fmt.Errorf("Main panicked at start-up with the shipped configuration: %v", panicked)
+			}
+			return fmt.Errorf("Main stopped at start-up with the shipped configuration: %v", err)
+		default:
+		}
+		resp, err := http.Get("http://" + ln.Addr().String() + "/witness/v0/logs")
+		if err == nil {
+			resp.Body.Close()
+			if resp.StatusCode == 200 {
+				return nil
+			}
+		}
+		if time.Now().After(deadline) {
+			return fmt.Errorf("Main did not start serving within 20s with the shipped configuration (last: %v)", err)
+		}
+		time.Sleep(20 * time.Millisecond)
+	}
+}
+
 func TestC17(t *testing.T) {
 	st := vlib.StatsFor("C17", "shipped", "exhaustive: every entry of omniwitness/logs.yaml and logs_test.yaml as found in the working tree goes through the loader functions Main uses and one feeder cycle against a refusing network; non-trivial = an entry with a feeder (URL actually started from); distinct by origin")
 	sm := vlib.StatsFor("C17", "loader-mutations", "sensitivity of the oracle: each entry x 8 configuration defects must be rejected by the same oracle; non-trivial = any")
@@ -225,6 +286,11 @@ func TestC17(t *testing.T) {
 				cl = append(cl, classes[i])
 			}
 			st.Record(f.name+"/"+l.Origin, l.Feeder != None, cl, map[string]any{"file": f.name, "origin": l.Origin, "url": l.URL, "feeder": fmt.Sprint(l.Feeder)})
+		}
+		if err == nil {
+			// and the assembled service itself must come up with it
+			err = startMain(f.doc)
+			st.Record(f.name+"/Main", true, []string{"main-starts:" + f.name}, map[string]any{"file": f.name, "check": "omniwitness.Main starts serving"})
 		}
 		if err != nil {
 			c := cfgMutation{File: f.name, Kind: "as-shipped"}
@@ -253,6 +319,9 @@ func init() {
 	vlib.Replayers["C17/shipped"] = func(raw json.RawMessage) error {
 		for _, doc := range [][]byte{ConfigLogs, verifTestConfigLogs} {
 			if _, err := checkConfig(doc); err != nil {
+				return err
+			}
+			if err := startMain(doc); err != nil {
 				return err
 			}
 		}
